@@ -5,3 +5,7 @@ open BsVerif.Bp
 #print axioms C02_text_after_remove
 #print axioms C02_native_equivalence
 #print axioms C02_resumes_on_original_bytes
+#print axioms C02_text_at_prompt_ctx
+#print axioms C02_native_equivalence_ctx
+#print axioms C02_ctx_ops_invisible_steps
+#print axioms C02_step_ignores_selected_frame
